@@ -239,6 +239,11 @@ def check_case(case, ctx):
     pa = clients.parse_response(form, ra.response, expect_menu=True)
     pb = clients.parse_response(form, rb.response, expect_menu=True)
     if not pb.ok:
+        if case.get("titles"):
+            # the twin without the faulty entries still has the link file that titles them: its blocks then name entries
+            # that do not exist (deleted since) - one more unservable thing that must not take the listing down
+            return [Fail("listing-failed:stale-title-block", "listing of %s, whose link file titles entries that do not exist, failed: %r" % (
+                dirsel, (pb.errmsg or rb.response[:120])), {"logs": rb.logs[-3:]})]
         # the fault-free twin must list; if it does not the generator is wrong
         raise AssertionError("baseline listing failed: %r %r" % (rb.response[:200], rb.logs))
     if not pa.ok or pa.problems:
